@@ -70,6 +70,7 @@ def edit_cases(draw, max_leaves):
     c["edits"] = draw(st.lists(st.tuples(st.integers(0, 100), st.integers(0, 100)), min_size=1, max_size=4))
     c["edit_kinds"] = draw(st.lists(st.sampled_from(["move", "move", "prune_leaf", "flip_rooting"]), min_size=4, max_size=4))
     c["followup_updated"] = draw(st.booleans())
+    c["first"] = draw(st.integers(0, 9))
     return c
 
 
@@ -135,42 +136,75 @@ def bip_key(b, ns, rooted, full):
     return frozenset([labs, full - labs])
 
 
-def compare_all(ctx, t1, t2, rt1, rt2, rooted, values, tag):
-    """All six functions against the oracle.  values=False: only structural (split-count) clauses."""
+def compare_all(ctx, t1, t2, rt1, rt2, rooted, values, tag, first=0):
+    """All functions against the oracle.  values=False: only structural (split-count) clauses.  `first` rotates the
+    order of the calls: the function asked first after an edit is the one that meets whatever the trees still cache."""
     from dendropy.calculate import treecompare as tc
     o = oracle(rt1, rt2, rooted)
-    d = lambda: "%s rooted=%r t1=%s t2=%s" % (tag, rooted, rt1.canon(lengths=True), rt2.canon(lengths=True))
-    sd = ctx.call("C04.symmetric_difference", tc.symmetric_difference, t1, t2)
-    ctx.check(sd == o["sd"], "symmetric_difference_is_split_count", "C04.symmetric_difference", lambda: "got %r want %r; %s" % (sd, o["sd"], d()))
-    urf = ctx.call("C04.unweighted_rf", tc.unweighted_robinson_foulds_distance, t1, t2)
-    ctx.check(urf == o["sd"], "unweighted_rf_is_split_count", "C04.unweighted_rf", lambda: "got %r want %r; %s" % (urf, o["sd"], d()))
-    fpn = ctx.call("C04.fpfn", tc.false_positives_and_negatives, t1, t2)
-    ctx.check(tuple(fpn) == (o["fp"], o["fn"]), "false_positives_and_negatives", "C04.fpfn",
-              lambda: "got %r want %r; %s" % (fpn, (o["fp"], o["fn"]), d()))
-    miss = ctx.call("C04.find_missing", tc.find_missing_bipartitions, t1, t2)
-    full = rt1.leafset()
-    got_missing = set(bip_key(b, t1.taxon_namespace, rooted, full) for b in miss)
-    ctx.check(got_missing == o["missing"] and len(miss) == len(o["missing"]), "find_missing_bipartitions", "C04.find_missing",
-              lambda: "got %r want %r; %s" % (sorted(map(repr, got_missing)), sorted(map(repr, o["missing"])), d()))
-    with warnings.catch_warnings():
-        warnings.simplefilter("ignore")
-        a = ctx.call("C04.alias_sd", t1.symmetric_difference, t2)
-        ctx.check(a == o["sd"], "tree_method_alias_symmetric_difference", "C04.alias_sd", d)
-        fa = ctx.call("C04.alias_fpfn", t1.false_positives_and_negatives, t2)
-        ctx.check(tuple(fa) == (o["fp"], o["fn"]), "tree_method_alias_fpfn", "C04.alias_fpfn", d)
-    if values:
+    d = lambda: "%s first=%d rooted=%r t1=%s t2=%s" % (tag, first, rooted, rt1.canon(lengths=True), rt2.canon(lengths=True))
+    out = {}
+
+    def c_sd():
+        sd = ctx.call("C04.symmetric_difference", tc.symmetric_difference, t1, t2)
+        ctx.check(sd == o["sd"], "symmetric_difference_is_split_count", "C04.symmetric_difference", lambda: "got %r want %r; %s" % (sd, o["sd"], d()))
+
+    def c_urf():
+        urf = ctx.call("C04.unweighted_rf", tc.unweighted_robinson_foulds_distance, t1, t2)
+        ctx.check(urf == o["sd"], "unweighted_rf_is_split_count", "C04.unweighted_rf", lambda: "got %r want %r; %s" % (urf, o["sd"], d()))
+
+    def c_fpfn():
+        fpn = ctx.call("C04.fpfn", tc.false_positives_and_negatives, t1, t2)
+        ctx.check(tuple(fpn) == (o["fp"], o["fn"]), "false_positives_and_negatives", "C04.fpfn",
+                  lambda: "got %r want %r; %s" % (fpn, (o["fp"], o["fn"]), d()))
+
+    def c_missing():
+        miss = ctx.call("C04.find_missing", tc.find_missing_bipartitions, t1, t2)
+        full = rt1.leafset()
+        got_missing = set(bip_key(b, t1.taxon_namespace, rooted, full) for b in miss)
+        ctx.check(got_missing == o["missing"] and len(miss) == len(o["missing"]), "find_missing_bipartitions", "C04.find_missing",
+                  lambda: "got %r want %r; %s" % (sorted(map(repr, got_missing)), sorted(map(repr, o["missing"])), d()))
+
+    def c_alias_sd():
+        with warnings.catch_warnings():
+            warnings.simplefilter("ignore")
+            a = ctx.call("C04.alias_sd", t1.symmetric_difference, t2)
+            ctx.check(a == o["sd"], "tree_method_alias_symmetric_difference", "C04.alias_sd", d)
+
+    def c_alias_fpfn():
+        with warnings.catch_warnings():
+            warnings.simplefilter("ignore")
+            fa = ctx.call("C04.alias_fpfn", t1.false_positives_and_negatives, t2)
+            ctx.check(tuple(fa) == (o["fp"], o["fn"]), "tree_method_alias_fpfn", "C04.alias_fpfn", d)
+
+    def c_wrf():
         w = ctx.call("C04.wrf", tc.weighted_robinson_foulds_distance, t1, t2)
         ctx.check(close(w, o["wrf"], o["scale"]), "weighted_rf_is_l1_norm", "C04.wrf", lambda: "got %r want %r; %s" % (w, o["wrf"], d()))
+        out["w"] = w
+
+    def c_eu():
         e = ctx.call("C04.euclidean", tc.euclidean_distance, t1, t2)
         ctx.check(close(e, o["eu"], o["scale"]), "euclidean_is_l2_norm", "C04.euclidean", lambda: "got %r want %r; %s" % (e, o["eu"], d()))
+        out["e"] = e
+
+    def c_alias_rf():
         with warnings.catch_warnings():
             warnings.simplefilter("ignore")
             w2 = ctx.call("C04.alias_rf", t1.robinson_foulds_distance, t2)
             ctx.check(close(w2, o["wrf"], o["scale"]), "tree_method_alias_rf", "C04.alias_rf", d)
+
+    def c_alias_eu():
+        with warnings.catch_warnings():
+            warnings.simplefilter("ignore")
             e2 = ctx.call("C04.alias_eu", t1.euclidean_distance, t2)
             ctx.check(close(e2, o["eu"], o["scale"]), "tree_method_alias_euclidean", "C04.alias_eu", d)
-        return o, w, e
-    return o, None, None
+
+    clauses = [c_sd, c_urf, c_fpfn, c_missing, c_alias_sd, c_alias_fpfn]
+    if values:
+        clauses += [c_wrf, c_eu, c_alias_rf, c_alias_eu]
+    k = first % len(clauses)
+    for c in clauses[k:] + clauses[:k]:
+        c()
+    return o, out.get("w"), out.get("e")
 
 
 def defined(fn, a, b):
@@ -358,7 +392,7 @@ def check_edits(ctx, case):
         for i in now.nodes():
             if ncl[i] == ncl[now.root] and now.length[i] is not None:
                 return
-        compare_all(ctx, t1, t2, now, rt2, rooted, True, "after-edit-%d:%s" % (moved, kind))
+        compare_all(ctx, t1, t2, now, rt2, rooted, True, "after-edit-%d:%s" % (moved, kind), first=case.get("first", 0) + step)
         compare_all(ctx, t2, t1, rt2, now, rooted, True, "after-edit-swapped-%d:%s" % (moved, kind))
         if case.get("followup_updated"):
             # encodings are current right after a default-argument call: the same question asked again with
